@@ -686,6 +686,59 @@ theorem C01_rules_domain_pattern_sub (d sub : Bytes) (hd : d.all plainByte = tru
     List.any_eq_true.mpr ⟨_, hmem, hm⟩
   simp [this]
 
+/-- … and NOTHING else among host names (letters, digits, `-`, `.`, `_`): `||d^`
+matches exactly `d` and the names `sub.d`, compared case-insensitively — not
+`example.organic`, `notexample.org` or `example.org.evil` for `d = example.org`. -/
+theorem C01_rules_domain_pattern_only (d h : Bytes) (hd : d.all plainByte = true) (_hne : d ≠ [])
+    (hh : h.all plainByte = true) :
+    searchFrom (.startURL :: compileBody (d ++ [94])) (httpScheme ++ h) true = true ↔
+      (lower h = lower d ∨ ∃ sub tail, sub ≠ [] ∧ h = sub ++ dot :: tail ∧ lower tail = lower d) := by
+  rw [searchFrom_startURL_eq, compileBody_plain d hd]
+  have hpre : httpScheme.isPrefixOf (httpScheme ++ h) = true := by simp
+  have hdrop : (httpScheme ++ h).drop httpScheme.length = h := by simp
+  simp only [matchHere, hpre, hdrop, Bool.true_and, Bool.or_eq_true]
+  constructor
+  · rintro (h1 | h2)
+    · exact Or.inl ((lits_sep_plain d h false hh).mp h1)
+    · obtain ⟨r, hr, hm⟩ := List.any_eq_true.mp h2
+      obtain ⟨p, hp, _, hne'⟩ := (afterHostPrefix_iff h r false).mp hr
+      have hpne : p ≠ [] := by
+        rcases hne' with h' | h'
+        · exact h'
+        · cases h'
+      have hrplain : r.all plainByte = true := by
+        rw [hp] at hh
+        have := all_append_left hh
+        simp only [List.all_cons, Bool.and_eq_true] at this
+        exact this.2
+      exact Or.inr ⟨p, r, hpne, hp, (lits_sep_plain d r false hrplain).mp hm⟩
+  · rintro (h1 | ⟨sub, tail, hsne, hsplit, hl⟩)
+    · exact Or.inl ((lits_sep_plain d h false hh).mpr h1)
+    · right
+      have hsub : sub.all plainByte = true := by
+        rw [hsplit, List.all_append] at hh
+        simp only [Bool.and_eq_true] at hh
+        exact hh.1
+      have htail : tail.all plainByte = true := by
+        rw [hsplit] at hh
+        have := all_append_left hh
+        simp only [List.all_cons, Bool.and_eq_true] at this
+        exact this.2
+      have hurl : sub.all isURLHostByte = true := by
+        rw [List.all_eq_true] at hsub ⊢
+        intro x hx; exact plainByte_urlHost x (hsub x hx)
+      exact List.any_eq_true.mpr ⟨tail, (afterHostPrefix_iff h tail false).mpr ⟨sub, hsplit, hurl, Or.inl hsne⟩,
+        (lits_sep_plain d tail false htail).mpr hl⟩
+
+/-- the look-alikes of the property text, concretely -/
+example : searchFrom (.startURL :: compileBody ([101, 120, 97, 109, 112, 108, 101, 46, 111, 114, 103] ++ [94]))
+      (httpScheme ++ [101, 120, 97, 109, 112, 108, 101, 46, 111, 114, 103, 97, 110, 105, 99]) true = false ∧   -- example.organic
+    searchFrom (.startURL :: compileBody ([101, 120, 97, 109, 112, 108, 101, 46, 111, 114, 103] ++ [94]))
+      (httpScheme ++ [110, 111, 116, 101, 120, 97, 109, 112, 108, 101, 46, 111, 114, 103]) true = false ∧          -- notexample.org
+    searchFrom (.startURL :: compileBody ([101, 120, 97, 109, 112, 108, 101, 46, 111, 114, 103] ++ [94]))
+      (httpScheme ++ [101, 120, 97, 109, 112, 108, 101, 46, 111, 114, 103, 46, 101, 118, 105, 108]) true = false := by  -- example.org.evil
+  decide
+
 /-- C01 for engines built from rule lists: the Layer A theorem instantiated with Layer B. -/
 theorem C01_rules_blocked_not_forwarded (block allow : List Rule) (c : Conf) (u : Upstream) (q : Query)
     (hdom : reserved c q = false) (hb : blockedByRules (ruleEngines block allow) c q = true) :
